@@ -3,6 +3,7 @@
   (minter/minter.go GetLatestMinterBlockAndNonce) and the persisted cursor.
 -/
 import Mhub2.Basic
+import Mhub2.Sha256
 namespace Mhub2
 
 /-- A Minter transaction as far as the connector looks at it. -/
@@ -32,6 +33,122 @@ def commandValid (typeKnown recipientOk : Bool) (fee : Option Int) (amount : Int
   match fee with
   | none => false
   | some f => !(f < 0) && !(amount - Int.tdiv amount 100 ≤ f)
+
+/-! ### Command validation at byte level (`command.ValidateAndComplete`, go-ethereum `common.IsHexAddress`,
+    `common.HexToAddress(..).Hex()`, `sdk.NewIntFromString`) -/
+
+def has0xPrefix : Bytes → Bool
+  | 48 :: c :: _ => c == 120 || c == 88
+  | _ => false
+
+def isHexCharacter (c : Nat) : Bool :=
+  (48 ≤ c && c ≤ 57) || (97 ≤ c && c ≤ 102) || (65 ≤ c && c ≤ 70)
+
+def strip0xBytes (b : Bytes) : Bytes := if has0xPrefix b then b.drop 2 else b
+
+/-- `common.IsHexAddress`: an optional `0x`/`0X`, then exactly 40 hex characters. -/
+def isHexAddress (b : Bytes) : Bool :=
+  (strip0xBytes b).length == 40 && (strip0xBytes b).all isHexCharacter
+
+def lowerHexChar (c : Nat) : Nat := if 65 ≤ c && c ≤ 70 then c + 32 else c
+
+def nibbles (b : Bytes) : List Nat := b.flatMap fun x => [x / 16, x % 16]
+
+/-- EIP-55 rendering of 40 hex characters: `0x` and the lower-case digits, a letter in upper case
+    where the corresponding nibble of keccak256(lower-case ascii) is at least 8. -/
+def checksumHex (digits : Bytes) : Bytes :=
+  let low := digits.map lowerHexChar
+  [48, 120] ++ (low.zip (nibbles (keccak256 low))).map fun (c, n) => if 97 ≤ c && 8 ≤ n then c - 32 else c
+
+def isAsciiDigit (c : Nat) : Bool := 48 ≤ c && c ≤ 57
+
+def digitsVal (b : Bytes) : Nat := b.foldl (fun acc c => acc * 10 + (c - 48)) 0
+
+/-- Optional sign of a number literal. -/
+def splitSign : Bytes → Bool × Bytes
+  | 45 :: r => (true, r)
+  | 43 :: r => (false, r)
+  | r => (false, r)
+
+/-- Value of a digit character as `math/big` reads it for bases up to 36 (`none`: not a digit). -/
+def goDigitVal (c : Nat) : Option Nat :=
+  if 48 ≤ c && c ≤ 57 then some (c - 48)
+  else if 97 ≤ c && c ≤ 122 then some (c - 97 + 10)
+  else if 65 ≤ c && c ≤ 90 then some (c - 65 + 10)
+  else none
+
+/-- State of `nat.scan`'s digit loop: value so far, digits counted, previous character was an
+    underscore, an underscore in a wrong place was seen. -/
+structure ScanAcc where
+  val : Nat
+  count : Nat
+  prevUnderscore : Bool
+  prevDigit : Bool       -- `prev == '0'` in the Go source: a digit (or the base prefix) precedes
+  invalSep : Bool
+
+/-- The digit loop of `nat.scan` (base 0 call: underscores allowed): consumes digits of base `b` and
+    underscores; returns the accumulator and the unread rest. -/
+def goScanDigits (b : Nat) : ScanAcc → Bytes → ScanAcc × Bytes
+  | a, [] => (a, [])
+  | a, c :: rest =>
+    if c == 95 then
+      goScanDigits b { a with invalSep := a.invalSep || !a.prevDigit, prevUnderscore := true, prevDigit := false } rest
+    else
+      match goDigitVal c with
+      | some d =>
+        if d < b then goScanDigits b { a with val := a.val * b + d, count := a.count + 1, prevUnderscore := false, prevDigit := true } rest
+        else (a, c :: rest)
+      | none => (a, c :: rest)
+
+/-- `new(big.Int).SetString(s, 0)`: optional sign; base prefix `0x`/`0X`, `0b`/`0B`, `0o`/`0O` or a
+    leading `0` (octal), else decimal; underscores between digits or after the prefix; the whole string
+    must be consumed and contain at least one digit. -/
+def goScanNat (r : Bytes) : Option (ScanAcc × Bytes) :=
+  match r with
+  | 48 :: [] => some ({ val := 0, count := 1, prevUnderscore := false, prevDigit := true, invalSep := false }, [])
+  | 48 :: c :: rest =>
+    let start : ScanAcc := { val := 0, count := 0, prevUnderscore := false, prevDigit := true, invalSep := false }
+    if c == 98 || c == 66 then
+      let (a, u) := goScanDigits 2 start rest
+      if a.count == 0 then none else some (a, u)
+    else if c == 111 || c == 79 then
+      let (a, u) := goScanDigits 8 start rest
+      if a.count == 0 then none else some (a, u)
+    else if c == 120 || c == 88 then
+      let (a, u) := goScanDigits 16 start rest
+      if a.count == 0 then none else some (a, u)
+    else
+      -- legacy octal: the leading 0 is the prefix; no further digit still reads as 0
+      some (goScanDigits 8 start (c :: rest))
+  | _ =>
+    let (a, u) := goScanDigits 10 { val := 0, count := 0, prevUnderscore := false, prevDigit := false, invalSep := false } r
+    if a.count == 0 then none else some (a, u)
+
+def goSetString0 (s : Bytes) : Option Int :=
+  match goScanNat (splitSign s).2 with
+  | none => none
+  | some (a, u) =>
+    if a.invalSep || a.prevUnderscore || !u.isEmpty then none
+    else some (if (splitSign s).1 then -(a.val : Int) else (a.val : Int))
+
+/-- `sdk.NewIntFromString`: `big.Int.SetString(s, 0)` and at most 256 bits. -/
+def parseSdkInt (b : Bytes) : Option Int :=
+  match goSetString0 b with
+  | none => none
+  | some v => if v.natAbs ≥ 2 ^ 256 then none else some v
+
+/-- `ValidateAndComplete` on the raw strings: `some r` = accepted, with the completed recipient `r`.
+    `hubRecipientOk` stands for `sdk.AccAddressFromBech32` (not modelled). -/
+def commandCheck (type : String) (recipient : Bytes) (hubRecipientOk : Bool) (fee : Bytes) (amount : Int) : Option Bytes :=
+  let r : Option Bytes :=
+    if type == "send_to_ethereum" || type == "send_to_bsc" then
+      if isHexAddress recipient then some (checksumHex (strip0xBytes recipient)) else none
+    else if type == "send_to_hub" then
+      if hubRecipientOk then some recipient else none
+    else none
+  match r, parseSdkInt fee with
+  | some r, some f => if !(f < 0) && !(amount - Int.tdiv amount 100 ≤ f) then some r else none
+  | _, _ => none
 
 /-- Does the resync scan count this transaction as a bridge event? -/
 def countsInResync : MTx → Bool
